@@ -3,7 +3,7 @@
    (Spec/Labels.v) at one indentation, for every tokenizer / ast oracle. *)
 From Coq Require Import List Arith Lia Bool NArith.
 From XD Require Import Model.Base Model.Parser Model.Format Spec.Partition Spec.Labels
-  Proofs.BaseFacts Proofs.ParserProofs Proofs.ChunkProofs Proofs.LabelProofs Proofs.FormatProofs.
+  Proofs.BaseFacts Proofs.ParserProofs Proofs.ChunkProofs Proofs.GroupLocal Proofs.LabelProofs Proofs.FormatProofs.
 Import ListNotations.
 
 (* ---------- grouping looks at the labels only ---------- *)
@@ -12,9 +12,6 @@ Definition on_grp (g : str -> str) (x : label * list (label * str)) : label * li
   (fst x, map (on_snd g) (snd x)).
 Definition chunk_map (g : str -> str) (c : chunk) : chunk :=
   match c with TextChunk ls => TextChunk (map g ls) | CodeChunk s w => CodeChunk (map g s) (map g w) end.
-Definition res_map {A B} (f : A -> B) (r : res A) : res B :=
-  match r with Ok x => Ok (f x) | Err e => Err e end.
-
 Lemma pass1_map g : forall items left state cur,
   pass1 left (map (on_snd g) items) state (map (on_snd g) cur) = map (on_grp g) (pass1 left items state cur).
 Proof.
@@ -631,4 +628,361 @@ Proof.
   split; [exact A|]. split; [exact B|]. split; [apply group_lines_partition; exact G|].
   rewrite format_src_shown; [|exact HS | eapply package_groups_nonempty; eassumption].
   rewrite (tiled_shown gs 0 items (package_groups_tiled o gs 0 items P)). reflexivity.
+Qed.
+
+(* ================= docstrings with prose around the examples ================= *)
+
+(* line offsets are relative to the line the chunk starts on *)
+Definition shift (k : nat) (p : part) : part :=
+  mkPart (exec_lines p) (want_lines p) (k + line_offset p) (orig_lines p) (p_directives p) (compile_mode p) (p_dirs_raise p).
+
+Lemma slice_example_shift ea sa tab o k n s1 s2 want mode :
+  slice_example ea sa tab o (k + n) s1 s2 want mode = res_map (shift k) (slice_example ea sa tab o n s1 s2 want mode).
+Proof.
+  unfold slice_example. destruct (lookup_nat s1 tab) as [ds|].
+  - cbn [res_map]. unfold shift. cbn. rewrite Nat.add_assoc. reflexivity.
+  - destruct (o_dirs o (slice_to s1 s2 ea)) as [ds|e].
+    + cbn [res_map]. unfold shift. cbn. rewrite Nat.add_assoc. reflexivity.
+    + destruct e; cbn [res_map]; unfold shift; cbn; rewrite ?Nat.add_assoc; reflexivity.
+Qed.
+
+Lemma map_res_shift {A} (f g : A -> res part) k : (forall x, f x = res_map (shift k) (g x)) ->
+  forall l, map_res f l = res_map (map (shift k)) (map_res g l).
+Proof.
+  intros H. induction l as [|x l IH]; [reflexivity|]. cbn [map_res]. rewrite H, IH.
+  destruct (g x) as [y|e]; cbn [bind res_map]; [|reflexivity].
+  destruct (map_res g l) as [ys|e]; cbn [bind res_map]; reflexivity.
+Qed.
+
+Lemma package_chunk_shift o s w k n :
+  package_chunk o s w (k + n) = res_map (map (shift k)) (package_chunk o s w n).
+Proof.
+  unfold package_chunk. destruct s as [|first rest]; [reflexivity|].
+  destruct (locate_ps1 o (map (skipn (line_indent first)) (first :: rest))) as [[ps1 mode_hint]|e]; [|reflexivity].
+  cbn [bind].
+  destruct (ps1_directives o (map (skipn 4) (map (skipn (line_indent first)) (first :: rest))) ps1) as [[tab brk]|e]; [|reflexivity].
+  cbn [bind].
+  set (ea := map (skipn 4) (map (skipn (line_indent first)) (first :: rest))).
+  set (sa := map (skipn (line_indent first)) (first :: rest)).
+  set (want := map (skipn (line_indent first)) w).
+  set (brk' := match brk with [] => [] | _ => sort_uniq (O :: brk) end).
+  rewrite (map_res_shift (fun ab => slice_example ea sa tab o (k + n) (fst ab) (Some (snd ab)) [] M_exec)
+                         (fun ab => slice_example ea sa tab o n (fst ab) (Some (snd ab)) [] M_exec) k)
+    by (intros x; apply slice_example_shift).
+  destruct (map_res (fun ab => slice_example ea sa tab o n (fst ab) (Some (snd ab)) [] M_exec) (consecutive_pairs brk')) as [parts1|e];
+    [|reflexivity].
+  cbn [bind res_map].
+  set (s1a := match consecutive_pairs brk' with [] => O | _ => match last_opt brk' with Some x => x | None => O end end).
+  destruct (nonempty want && match mode_hint with M_exec => false | _ => true end).
+  - destruct (last_opt ps1) as [s2|]; [|reflexivity].
+    destruct (Nat.eqb s2 s1a).
+    + cbn [bind]. rewrite slice_example_shift.
+      destruct (slice_example ea sa tab o n s1a None want (if nonempty want then mode_hint else M_exec)) as [lastp|e];
+        cbn [bind res_map]; [|reflexivity].
+      rewrite !map_app. reflexivity.
+    + rewrite slice_example_shift.
+      destruct (slice_example ea sa tab o n s1a (Some s2) [] M_exec) as [p|e]; cbn [bind res_map]; [|reflexivity].
+      rewrite slice_example_shift.
+      destruct (slice_example ea sa tab o n s2 None want (if nonempty want then mode_hint else M_exec)) as [lastp|e];
+        cbn [bind res_map]; [|reflexivity].
+      rewrite !map_app. reflexivity.
+  - cbn [bind]. rewrite slice_example_shift.
+    destruct (slice_example ea sa tab o n s1a None want (if nonempty want then mode_hint else M_exec)) as [lastp|e];
+      cbn [bind res_map]; [|reflexivity].
+    rewrite !map_app. reflexivity.
+Qed.
+
+Definition shift_item (k : nat) (it : item) : item :=
+  match it with IText t => IText t | IPart p => IPart (shift k p) end.
+
+Lemma package_groups_shift o k : forall gs n,
+  package_groups o gs (k + n) = res_map (map (shift_item k)) (package_groups o gs n).
+Proof.
+  induction gs as [|c gs IH]; intros n; [reflexivity|]. destruct c as [ls|s w]; cbn [package_groups].
+  - rewrite <- Nat.add_assoc, IH. destruct (package_groups o gs (n + length ls)) as [r|e]; reflexivity.
+  - rewrite package_chunk_shift. destruct (package_chunk o s w n) as [ps|e]; cbn [bind res_map]; [|reflexivity].
+    rewrite <- !Nat.add_assoc, IH. rewrite !Nat.add_assoc.
+    destruct (package_groups o gs (n + length s + length w)) as [r|e]; cbn [bind res_map]; [|reflexivity].
+    rewrite map_app, !map_map. reflexivity.
+Qed.
+
+Lemma package_groups_app o : forall g1 g2 n,
+  package_groups o (g1 ++ g2) n = both (package_groups o g1 n) (package_groups o g2 (n + length (flatten_chunks g1))).
+Proof.
+  induction g1 as [|c g1 IH]; intros g2 n.
+  - cbn [app package_groups both]. unfold flatten_chunks. cbn. rewrite Nat.add_0_r.
+    destruct (package_groups o g2 n); reflexivity.
+  - destruct c as [ls|s w]; cbn [app package_groups].
+    + rewrite IH. unfold flatten_chunks. cbn [map concat chunk_lines]. rewrite app_length, Nat.add_assoc.
+      destruct (package_groups o g1 (n + length ls)) as [a|e]; cbn [bind both]; [|reflexivity].
+      destruct (package_groups o g2 _) as [b|e]; reflexivity.
+    + destruct (package_chunk o s w n) as [ps|e]; cbn [bind both]; [|reflexivity].
+      rewrite IH. unfold flatten_chunks. cbn [map concat chunk_lines]. rewrite !app_length, !Nat.add_assoc.
+      destruct (package_groups o g1 (n + length s + length w)) as [a|e]; cbn [bind both]; [|reflexivity].
+      destruct (package_groups o g2 _) as [b|e]; cbn [bind both]; [|reflexivity].
+      rewrite app_assoc. reflexivity.
+Qed.
+
+Lemma chain_ex0_any_start bal exs prev prev' :
+  Chain bal prev O (map BEx (map ex0 exs)) -> Chain bal prev' O (map BEx (map ex0 exs)).
+Proof.
+  destruct exs as [|e exs]; [constructor|]. cbn [map]. intros H.
+  inversion H as [|? ? ? ? Hok Hrest]; subst. constructor.
+  - destruct Hok as (A & B & C & _). cbn [ok_after]. split; [exact A|]. split; [exact B|]. split; [exact C|].
+    intros _. reflexivity.
+  - exact Hrest.
+Qed.
+
+(* the core of the re-parse argument: from the chunks of the examples' labelled lines *)
+Lemma reparse_core o ind exs gx its prev pind :
+  exs <> [] -> Forall (fun e => ex_ind e = ind) exs ->
+  Chain (o_bal o) prev pind (map BEx exs) ->
+  Forall LineOK (exs_lines (map ex0 exs)) ->
+  group_lines (intended (map BEx exs)) = Ok gx -> package_groups o gx 0 = Ok its ->
+  parse o (join_nl (exs_lines (map ex0 exs))) = Parsed its.
+Proof.
+  intros NE HI HC HOK G P.
+  pose proof (chain_ex0_any_start _ _ _ TEXT (chain_ex0 _ _ _ _ HC)) as HC0.
+  pose proof (chain_wants _ _ _ _ HC) as HW.
+  pose proof (exs0_lines_heads _ HW) as HH.
+  destruct (exs0_first _ _ _ _ NE HC) as (code & rest & EF).
+  unfold parse. rewrite EF, normalize_displayed by (rewrite <- EF; exact HOK).
+  unfold label_lines. rewrite splitlines_join.
+  2:{ rewrite <- EF. rewrite Forall_forall in *. intros l Hl. split; [apply (HOK l Hl)|].
+      destruct (HH l Hl) as (c & r & E & _). subst l. discriminate. }
+  rewrite <- EF. unfold exs_lines at 1. rewrite (labels_as_intended_from _ _ _ _ HC0).
+  assert (EI : intended (map BEx (map ex0 exs)) = map (on_snd (skipn ind)) (intended (map BEx exs))).
+  { rewrite !intended_exs, map_on_snd_combine, exs_labels_ex0. f_equal.
+    rewrite (exs_lines_ind ind exs HI), skipn_ind_lines. reflexivity. }
+  rewrite EI, group_lines_map, G. cbn [res_map].
+  rewrite (package_groups_dedent o ind).
+  - rewrite P. reflexivity.
+  - eapply group_lines_notext; [|exact G]. unfold NoText. rewrite intended_exs.
+    apply (proj1 (Forall_map fst (fun l => l <> TEXT) _)).
+    rewrite map_fst_combine by apply exs_labels_length. apply exs_labels_notext.
+  - rewrite (group_lines_partition _ _ G), intended_exs, map_snd_combine by apply exs_labels_length.
+    rewrite (exs_lines_ind ind exs HI). apply ind_lines. exact HH.
+Qed.
+
+(* what the parts of the examples' chunks display, wherever the chunks start *)
+Lemma display_core o ind exs gx its n prev pind :
+  AstInRange o -> Forall (fun e => ex_ind e = ind) exs ->
+  Chain (o_bal o) prev pind (map BEx exs) ->
+  Forall LineOK (exs_lines (map ex0 exs)) ->
+  group_lines (intended (map BEx exs)) = Ok gx -> package_groups o gx n = Ok its ->
+  concat (map all_lines (parts_of its)) = exs_lines (map ex0 exs) /\
+  Forall ShownOK (parts_of its) /\ Forall (fun p => orig_lines p <> []) (parts_of its).
+Proof.
+  intros HR HI HC HOK G P.
+  pose proof (chain_wants _ _ _ _ HC) as HW.
+  pose proof (exs0_lines_heads _ HW) as HH.
+  assert (GC : Forall is_code gx).
+  { eapply group_lines_notext; [|exact G]. unfold NoText. rewrite intended_exs.
+    apply (proj1 (Forall_map fst (fun l => l <> TEXT) _)).
+    rewrite map_fst_combine by apply exs_labels_length. apply exs_labels_notext. }
+  assert (FL : flatten_chunks gx = exs_lines exs).
+  { rewrite (group_lines_partition _ _ G), intended_exs, map_snd_combine by apply exs_labels_length. reflexivity. }
+  assert (GI : Forall (IndLine ind) (flatten_chunks gx)).
+  { rewrite FL, (exs_lines_ind ind exs HI). apply ind_lines. exact HH. }
+  assert (AL : concat (map all_lines (parts_of its)) = exs_lines (map ex0 exs)).
+  { rewrite (tiled_shown gx n its (package_groups_tiled o gx n its P)).
+    rewrite (shown_dedent o ind gx n its P GC GI), FL, (exs_lines_ind ind exs HI). apply skipn_ind_lines. }
+  split; [exact AL|]. split; [|eapply package_groups_nonempty; eassumption].
+  apply Forall_forall. intros p Hp.
+  assert (IN : forall l, In l (all_lines p) -> Clean l /\ l <> []).
+  { intros l Hl. assert (Hl' : In l (exs_lines (map ex0 exs))).
+    { rewrite <- AL. apply in_concat. exists (all_lines p). split; [apply in_map; exact Hp | exact Hl]. }
+    split.
+    - rewrite Forall_forall in HOK. apply (HOK l Hl').
+    - rewrite Forall_forall in HH. destruct (HH l Hl') as (c & r & E & _). subst l. discriminate. }
+  split; apply Forall_forall; intros l Hl; apply IN; unfold all_lines; apply in_or_app; [left | right]; exact Hl.
+Qed.
+
+(* ---------- prose before and after the examples ---------- *)
+Definition text_items (p : list str) : list (label * str) := map (pair TEXT) p.
+Definition tchunk (T : list (label * str)) : list chunk :=
+  match T with [] => [] | _ => [TextChunk (map snd T)] end.
+
+Lemma text_items_class p : AllClass KText (text_items p).
+Proof. unfold AllClass, text_items. rewrite Forall_map. apply Forall_forall. intros l _. reflexivity. Qed.
+
+Lemma intended_app a b : intended (a ++ b) = intended a ++ intended b.
+Proof.
+  unfold intended. rewrite !map_app, !concat_app. apply combine_app.
+  induction a as [|x a IH]; [reflexivity|]. cbn [map concat]. rewrite !app_length, IH, block_labels_length. reflexivity.
+Qed.
+
+Lemma intended_prose p : intended [BProse p] = text_items p.
+Proof.
+  unfold intended, text_items. cbn [map concat block_labels block_lines]. rewrite !app_nil_r.
+  induction p as [|l p IH]; [reflexivity|]. cbn [map combine]. rewrite IH. reflexivity.
+Qed.
+
+Lemma both_ok_inv {A} (r1 r2 : res (list A)) c : both r1 r2 = Ok c ->
+  exists a b, r1 = Ok a /\ r2 = Ok b /\ c = a ++ b.
+Proof.
+  unfold both. destruct r1 as [a|e]; [|discriminate]. destruct r2 as [b|e]; [|discriminate].
+  intros H. inversion H. exists a, b. repeat split.
+Qed.
+
+Lemma class_all_last k (X : list (label * str)) d : X <> [] -> AllClass k X -> class_of (fst (last X d)) = k.
+Proof. intros NE H. unfold AllClass in H. rewrite Forall_forall in H. apply H. apply last_in_ne. exact NE. Qed.
+
+Lemma gl_around T0 (x : label * str) X' T1 gs :
+  AllClass KText T0 -> AllClass KText T1 ->
+  Forall (fun it => class_of (fst it) <> KText) (x :: X') -> fst x <> WANT ->
+  group_lines (T0 ++ (x :: X') ++ T1) = Ok gs ->
+  exists gx, group_lines (x :: X') = Ok gx /\ gs = tchunk T0 ++ gx ++ tchunk T1.
+Proof.
+  intros H0 H1 HX HW G.
+  assert (LX : forall d, class_of (fst (last (x :: X') d)) <> KText).
+  { intros d. rewrite Forall_forall in HX. apply HX. apply last_in_ne. discriminate. }
+  (* cut off the trailing prose *)
+  assert (G' : exists g0, group_lines (T0 ++ x :: X') = Ok g0 /\ gs = g0 ++ tchunk T1).
+  { destruct T1 as [|t1 T1'].
+    - rewrite app_nil_r in G. exists gs. split; [exact G | cbn; rewrite app_nil_r; reflexivity].
+    - rewrite app_assoc in G.
+      rewrite (group_lines_app (T0 ++ x :: X') t1 T1' (TEXT, [])) in G.
+      + apply both_ok_inv in G. destruct G as (a & b & Ga & Gb & ->).
+        rewrite (group_lines_text t1 T1' H1) in Gb. inversion Gb; subst b. exists a. split; [exact Ga | reflexivity].
+      + destruct T0; discriminate.
+      + rewrite last_app_ne by discriminate. inversion H1 as [|? ? Ht _]; subst. rewrite Ht. apply LX.
+      + inversion H1 as [|? ? Ht _]; subst. destruct (fst t1); cbn in Ht; try discriminate. }
+  destruct G' as (g0 & G0 & ->).
+  (* cut off the leading prose *)
+  destruct T0 as [|t0 T0'].
+  - exists g0. split; [exact G0 | reflexivity].
+  - change ((t0 :: T0') ++ x :: X') with ((t0 :: T0') ++ x :: X') in G0.
+    rewrite (group_lines_app (t0 :: T0') x X' (TEXT, [])) in G0.
+    + apply both_ok_inv in G0. destruct G0 as (a & b & Ga & Gb & ->).
+      rewrite (group_lines_text t0 T0' H0) in Ga. inversion Ga; subst a. exists b. split; [exact Gb|].
+      cbn [tchunk app]. reflexivity.
+    + discriminate.
+    + rewrite (class_all_last KText (t0 :: T0')); [|discriminate | exact H0].
+      inversion HX as [|? ? Hx _]; subst. intros E. apply Hx. symmetry. exact E.
+    + exact HW.
+Qed.
+
+Lemma chain_app_l bal : forall a b prev pind, Chain bal prev pind (a ++ b) -> Chain bal prev pind a.
+Proof.
+  induction a as [|x a IH]; intros b prev pind H; [constructor|]. cbn [app] in H.
+  inversion H as [|? ? ? ? Hok Hrest]; subst. constructor; [exact Hok|]. eapply IH. exact Hrest.
+Qed.
+
+Lemma intended_exs_head bal exs prev pind : exs <> [] -> Chain bal prev pind (map BEx exs) ->
+  exists x X', intended (map BEx exs) = x :: X' /\ fst x = DSRC.
+Proof.
+  intros NE H. destruct exs as [|e exs]; [contradiction|]. cbn [map] in H.
+  inversion H as [|? ? ? ? Hok _]; subst. destruct Hok as (A & _).
+  unfold intended. cbn [map concat block_labels block_lines]. unfold ex_labels, ex_lines.
+  destruct (ex_stmts e) as [|s ss]; [contradiction|]. cbn [map concat stmt_labels stmt_lines app combine].
+  eexists. eexists. split; reflexivity.
+Qed.
+
+Lemma parts_of_shift k its : parts_of (map (shift_item k) its) = map (shift k) (parts_of its).
+Proof.
+  induction its as [|it its IH]; [reflexivity|]. destruct it as [t|p]; cbn [map shift_item].
+  - exact IH.
+  - change (parts_of (IPart (shift k p) :: map (shift_item k) its)) with (shift k p :: parts_of (map (shift_item k) its)).
+    rewrite IH. reflexivity.
+Qed.
+
+Lemma package_tchunk o T n : exists tis, package_groups o (tchunk T) n = Ok tis /\ parts_of tis = [].
+Proof.
+  destruct T as [|t T]; [exists []; split; reflexivity|]. cbn [tchunk package_groups bind].
+  eexists. split; reflexivity.
+Qed.
+
+Lemma flatten_tchunk_items p : length (flatten_chunks (tchunk (text_items p))) = length p.
+Proof.
+  destruct p as [|l p]; [reflexivity|]. unfold flatten_chunks, text_items. cbn [map tchunk concat chunk_lines].
+  rewrite app_nil_r. cbn [length]. rewrite !map_length. reflexivity.
+Qed.
+
+(* prose before and after a run of examples: the displayed text is the examples' lines, and parsing it again gives
+   the same parts -- each with its line offset counted from the first displayed line instead of the docstring's *)
+Theorem reparse_prose_around o ind exs p0 p1 s items off lineno :
+  AstInRange o -> exs <> [] -> Forall (fun e => ex_ind e = ind) exs ->
+  Chain (o_bal o) TEXT O (BProse p0 :: map BEx exs ++ [BProse p1]) ->
+  splitlines (normalize_docstring s) = concat (map block_lines (BProse p0 :: map BEx exs ++ [BProse p1])) ->
+  Forall LineOK (exs_lines (map ex0 exs)) ->
+  parse o s = Parsed items ->
+  format_src (parts_of items) false true off true false lineno = join_nl (exs_lines (map ex0 exs)) /\
+  exists items', parse o (format_src (parts_of items) false true off true false lineno) = Parsed items' /\
+                 parts_of items = map (shift (length p0)) (parts_of items').
+Proof.
+  intros HR NE HI HC HL HOK HP.
+  (* the chain of the examples alone *)
+  assert (HCE : exists pv pi, Chain (o_bal o) pv pi (map BEx exs)).
+  { inversion HC as [|? ? ? ? _ Hrest]; subst. eexists. eexists. eapply chain_app_l. exact Hrest. }
+  destruct HCE as (pv & pi & HCE).
+  (* the original parse *)
+  unfold parse in HP. unfold label_lines in HP. rewrite HL in HP.
+  rewrite (labels_as_intended_from _ _ _ _ HC) in HP.
+  change (BProse p0 :: map BEx exs ++ [BProse p1]) with ([BProse p0] ++ map BEx exs ++ [BProse p1]) in HP.
+  rewrite !intended_app, !intended_prose in HP.
+  destruct (group_lines (text_items p0 ++ intended (map BEx exs) ++ text_items p1)) as [gs|e] eqn:G;
+    [|destruct e; discriminate].
+  destruct (package_groups o gs 0) as [its|e] eqn:P; [|destruct e; discriminate].
+  inversion HP; subst its. clear HP.
+  destruct (intended_exs_head _ _ _ _ NE HCE) as (x & X' & EX & Hx).
+  rewrite EX in G.
+  apply gl_around in G.
+  2: apply text_items_class. 2: apply text_items_class.
+  2:{ rewrite <- EX, intended_exs. apply (proj1 (Forall_map fst (fun l => class_of l <> KText) _)).
+      rewrite map_fst_combine by apply exs_labels_length.
+      eapply Forall_impl; [|apply exs_labels_notext]. intros l Hl E. apply Hl. destruct l; cbn in E; try discriminate. reflexivity. }
+  2:{ rewrite Hx. discriminate. }
+  destruct G as (gx & GX & ->). rewrite <- EX in GX.
+  (* the items *)
+  rewrite package_groups_app in P. apply both_ok_inv in P. destruct P as (ti0 & rest & P0 & P1 & ->).
+  rewrite package_groups_app in P1. apply both_ok_inv in P1. destruct P1 as (itsX & ti1 & PX & P2 & ->).
+  destruct (package_tchunk o (text_items p0) 0) as (t0 & E0 & N0). rewrite E0 in P0. inversion P0; subst ti0.
+  destruct (package_tchunk o (text_items p1) (0 + length (flatten_chunks (tchunk (text_items p0))) + length (flatten_chunks gx)))
+    as (t1 & E1 & N1).
+  rewrite E1 in P2. inversion P2; subst ti1.
+  rewrite flatten_tchunk_items in PX. cbn [Nat.add] in PX.
+  assert (PS : parts_of (t0 ++ itsX ++ t1) = parts_of itsX).
+  { rewrite !parts_of_app, N0, N1, app_nil_r. reflexivity. }
+  rewrite PS.
+  (* the same chunks packaged from line 0 *)
+  pose proof (package_groups_shift o (length p0) gx 0) as SH. rewrite Nat.add_0_r, PX in SH.
+  destruct (package_groups o gx 0) as [its0|e] eqn:P0'; [|discriminate]. cbn [res_map] in SH. inversion SH; subst itsX.
+  destruct (display_core o ind exs gx _ _ _ _ HR HI HCE HOK GX PX) as (AL & SOK & NEO).
+  assert (D : format_src (parts_of (map (shift_item (length p0)) its0)) false true off true false lineno
+              = join_nl (exs_lines (map ex0 exs))).
+  { rewrite format_src_shown by assumption. rewrite AL. reflexivity. }
+  split; [exact D|]. exists its0. split.
+  - rewrite D. eapply reparse_core; eassumption.
+  - apply parts_of_shift.
+Qed.
+
+(* the hypotheses are satisfiable: "Summary." / "" / "    >>> a" / "    >>> b" / "    w" / "" / "More." *)
+Definition demo_p0 : list str := [[83;117;109;109;97;114;121;46]; []]%N.
+Definition demo_p1 : list str := [[]; [77;111;114;101;46]]%N.
+Definition demo_exs4 : list example := [mkEx 4 [mkStmtB [97%N] []; mkStmtB [98%N] []] [[119%N]]].
+Definition demo_doc2 : str :=
+  ([83;117;109;109;97;114;121;46;10;10] ++ [32;32;32;32;62;62;62;32;97;10] ++ [32;32;32;32;62;62;62;32;98;10] ++
+   [32;32;32;32;119;10;10] ++ [77;111;114;101;46])%N.
+
+Example demo_prose_around_hyps :
+  demo_exs4 <> [] /\ Forall (fun e => ex_ind e = 4) demo_exs4 /\
+  Chain (o_bal demo_oracle) TEXT 0 (BProse demo_p0 :: map BEx demo_exs4 ++ [BProse demo_p1]) /\
+  splitlines (normalize_docstring demo_doc2) = concat (map block_lines (BProse demo_p0 :: map BEx demo_exs4 ++ [BProse demo_p1])) /\
+  Forall LineOK (exs_lines (map ex0 demo_exs4)) /\
+  exists items, parse demo_oracle demo_doc2 = Parsed items /\ map line_offset (parts_of items) = [2; 3].
+Proof.
+  split; [discriminate|]. split; [repeat constructor|]. split.
+  { apply Chain_cons.
+    { split; [repeat constructor | intros H; contradiction H; reflexivity]. }
+    apply Chain_cons.
+    { split; [discriminate|]. split; [|split].
+      - constructor; [|constructor; [|constructor]]; (split; [intros k Hk; simpl in Hk; lia | reflexivity]).
+      - constructor; [|constructor]. split; [eexists; eexists; split; reflexivity | repeat split; reflexivity].
+      - intros H; discriminate H. }
+    apply Chain_cons; [|apply Chain_nil].
+    split; [repeat constructor | intros _; reflexivity]. }
+  split; [reflexivity|]. split.
+  { repeat constructor; intros c Hc; cbn in Hc; repeat (destruct Hc as [<-|Hc]; [reflexivity|]); contradiction. }
+  eexists. split; [vm_compute; reflexivity | reflexivity].
 Qed.
